@@ -3,14 +3,18 @@ package props
 import (
 	"fmt"
 	"math/rand"
+	"reflect"
 	"runtime"
 	"strconv"
+	"strings"
 	"sync"
 	"sync/atomic"
 	"time"
 
 	"gitee.com/xuesongtao/protoc-go-valid/valid"
 	"vmon/internal/core"
+	"vmon/internal/drive"
+	"vmon/internal/gen"
 )
 
 // C11 — concurrent validations do not interfere.
@@ -84,7 +88,7 @@ func init() {
 			if r.Counters["race_detector_active"] == 0 {
 				r.Inconc("the monitor binary was not built with -race")
 			}
-			for k, min := range map[string]int64{"max_in_flight": 4, "double_misses": 20, "pool_objects_seen_by_2plus_goroutines": 5, "calls_while_2plus_in_flight": 2000, "entry_kind_pairs_overlapping": 100} {
+			for k, min := range map[string]int64{"max_in_flight": 4, "double_misses": 20, "pool_objects_seen_by_2plus_goroutines": 5, "calls_while_2plus_in_flight": 2000, "entry_kind_pairs_overlapping": 100, "stampede_bursts": 300} {
 				if r.Counters[k] < min {
 					r.Inconc(fmt.Sprintf("schedule-dependent minimum not reached: %s=%d (minimum %d)", k, r.Counters[k], min))
 				}
@@ -153,11 +157,59 @@ func runC11(c *core.Ctx) {
 			break
 		}
 	}
+	c11Bursts(c, G)
 	if yc != nil {
 		res.Count("double_misses", yc.dbl)
 		res.Count("cache_misses", yc.miss)
 		res.Count("cache_hits", yc.hit)
 		res.Count("cache_stores", yc.store)
+	}
+}
+
+// c11Bursts: all goroutines validate one brand-new struct type (24 fields, every field violated) at
+// the same instant, again and again with fresh types — the first analysis of a type racing with
+// lookups of the same type is the window in which a half-built cache entry could be observed.
+func c11Bursts(c *core.Ctx, G int) {
+	res := c.Res
+	B := c.Pick(120, 1200)
+	for b := 0; b < B; b++ {
+		fields := make([]reflect.StructField, 24)
+		for f := range fields {
+			fields[f] = reflect.StructField{Name: fmt.Sprintf("F%d", f), Type: gen.TString, Tag: reflect.StructTag(fmt.Sprintf(`valid:"required|m_%d_%d_%d"`, c.Shard, b, f))}
+		}
+		inner := reflect.StructOf(fields[:12])
+		fields[23] = reflect.StructField{Name: "In", Type: inner, Tag: `valid:"exist"`}
+		fields[22] = reflect.StructField{Name: "L", Type: reflect.SliceOf(inner), Tag: `valid:"required|m_l"`}
+		t := reflect.StructOf(fields)
+		mk := func() interface{} {
+			v := reflect.New(t)
+			v.Elem().Field(22).Set(reflect.MakeSlice(reflect.SliceOf(inner), 2, 2))
+			v.Elem().Field(23).Field(0).SetString("x") // non-zero, so that exist descends
+			return v.Interface()
+		}
+		out := make([]string, G)
+		start := make(chan struct{})
+		var wg sync.WaitGroup
+		for g := 0; g < G; g++ {
+			wg.Add(1)
+			in := mk()
+			go func(g int) {
+				defer wg.Done()
+				<-start
+				out[g] = normErr(drive.Call(func() error { return valid.Struct(in) }))
+			}(g)
+		}
+		close(start)
+		wg.Wait()
+		solo := normErr(drive.Call(func() error { return valid.Struct(mk()) }))
+		res.Count("stampede_bursts")
+		for g := 0; g < G; g++ {
+			res.Eval()
+			if out[g] != solo {
+				res.Violate("C11|differs-from-solo|first-use-stampede", fmt.Sprintf("burst %d: goroutine %d of %d validating a brand-new 24-field type returned %d clauses, alone it returns %d: %q vs %q", b, g, G, strings.Count(out[g], "; ")+1, strings.Count(solo, "; ")+1, trunc(out[g], 300), trunc(solo, 300)),
+					map[string]interface{}{"concurrent": out[g], "solo": solo, "goroutines": G, "cache": c.Args["cache"], "procs": c.Args["procs"]})
+			}
+		}
 	}
 }
 
